@@ -29,6 +29,9 @@ type c06SizeCase struct {
 	Where    string      `json:"where"`               // front / back / into:<group index>
 	PadAct   uint32      `json:"pad_action"`          // action of a new padding group
 	PadOrder string      `json:"pad_order,omitempty"` // "" random subset / low / high (by syscall number)
+	// Prev: what the Policy values went through before ("edited-conds": the same value, with the same numbers of names
+	// and conditions, compiled other names and conditions before and was then edited in place)
+	Prev string `json:"prev,omitempty"`
 }
 
 func drawC06Size(t *rapid.T) c06SizeCase {
@@ -56,6 +59,9 @@ func drawC06Size(t *rapid.T) c06SizeCase {
 	// the padding names are a random subset, or the lowest / highest numbered free names (so that the syscalls the small
 	// policy speaks about lie above / below every added one)
 	c.PadOrder = []string{"", "", "low", "high"}[rapid.IntRange(0, 3).Draw(t, "padOrder")]
+	if rapid.IntRange(0, 3).Draw(t, "history") == 0 {
+		c.Prev = "edited-conds"
+	}
 	return c
 }
 
@@ -65,7 +71,10 @@ func checkC06Size(raw json.RawMessage) (ev.Result, error) {
 		return ev.Result{}, ev.Inconclusivef("bad case: %v", err)
 	}
 	p := &c.Policy
-	small, cerr, pan := compilePolicy(p)
+	if c.Prev != "" && c.Prev != "edited-conds" {
+		return ev.Result{}, ev.Inconclusivef("unknown history %q", c.Prev)
+	}
+	small, cerr, pan := compilePolicyAfter(p, c.Prev)
 	if pan != nil {
 		return ev.Result{}, fmt.Errorf("Assemble panicked: %v", pan)
 	}
@@ -131,7 +140,7 @@ func checkC06Size(raw json.RawMessage) (ev.Result, error) {
 		}
 		big.Groups[into].Names = append(big.Groups[into].Names, pad...)
 	}
-	padded, cerr, pan := compilePolicy(&big)
+	padded, cerr, pan := compilePolicyAfter(&big, c.Prev)
 	if pan != nil {
 		return ev.Result{}, fmt.Errorf("Assemble panicked on the padded policy: %v", pan)
 	}
@@ -170,6 +179,9 @@ func checkC06Size(raw json.RawMessage) (ev.Result, error) {
 		}
 	}
 	res := ev.Result{Classes: []string{"policy-size", "pad:" + c.Where[:4]}, Sub: n}
+	if c.Prev != "" {
+		res.Classes = append(res.Classes, "values-compiled-other-entries-before")
+	}
 	if len(small.raw) <= 255 && len(padded.raw) > 255 {
 		res.NonTrivial = true
 		res.Classes = append(res.Classes, "padding-crosses-255-instructions")
